@@ -40,6 +40,9 @@ inductive ReqThen where
   | panic (site : String)
   /-- if the parsed URL's text ends with the char: that error, else the last one -/
   | urlEnds (alts : List (Char × PErr)) (other : PErr)
+  /-- (F20) a marker follows the URL: if the parsed URL's text ends with the char: that error,
+      else the requirement -/
+  | urlEndsOk (alts : List (Char × PErr)) (r : ReqOk)
 
 structure ReqOut where
   calls : List ExtCall
@@ -315,7 +318,8 @@ def parseRequirement (env : ProcEnv) (x : Ext) (input : List Char) : ReqOut :=
               | some ((pos, ch), _) =>
                 let other : PErr := ⟨.string, pos, utf8Len ch⟩
                 let isUrl := match kind with | .url _ => true | _ => false
-                if marker.isNone && isUrl then
+                -- with a marker (F20) the URL-end check comes first, without one it is made here
+                if isUrl then
                   -- (F17) the last byte of the URL text, not of whatever ended the scan
                   let urlEnd := match calls.getLast? with
                     | some (.url _ s l) => s + l
@@ -323,6 +327,13 @@ def parseRequirement (env : ProcEnv) (x : Ext) (input : List Char) : ReqOut :=
                   ⟨calls, .urlEnds [(';', ⟨.string, urlEnd - 1, 1⟩), ('#', ⟨.string, urlEnd - 1, 1⟩)] other⟩
                 else ⟨calls, .err other⟩
               | none =>
-                ⟨calls, .ok ⟨name, extras, kind, marker.getD (.leaf true), warns⟩⟩
+                let r : ReqOk := ⟨name, extras, kind, marker.getD (.leaf true), warns⟩
+                let isUrl := match kind with | .url _ => true | _ => false
+                if marker.isSome && isUrl then
+                  let urlEnd := match calls.getLast? with
+                    | some (.url _ s l) => s + l
+                    | _ => c.pos
+                  ⟨calls, .urlEndsOk [(';', ⟨.string, urlEnd - 1, 1⟩), ('#', ⟨.string, urlEnd - 1, 1⟩)] r⟩
+                else ⟨calls, .ok r⟩
 
 end Pep508
